@@ -106,25 +106,51 @@ def reducer {α : Type} (op : α → α → α) (init : Option α) (n : Nat) (el
     if n = 0 then none
     else some ((List.range' 1 (n-1)).foldl (fun acc i => op acc (elem i)) (elem 0))
 
+/-- `reducer_t::empty<result_t>(initial)`: the value of a reduction over no element — the initial value, else the
+    identity of the op (`ident` = `op_type::identity()` when the functor has one: add 0, multiply 1), else an assert
+    and, with NDEBUG, a value-initialised result (`none`) -/
+def emptyFold {α : Type} (ident init : Option α) : Option α :=
+  match init with
+  | some i => some i
+  | none => ident
+
+/-- the fold of an `x` of `n` elements (`elem` = its elements in C order) as `reduce_t` / `accumulate_t` do it:
+    nothing to fold (`n = 0`: some reduced axis has extent 0) → `reducer_t::empty`; else `unwrap(view::flatten(x))`
+    (defined for `n > 0`) followed by `reducer_t::operator()` -/
+def flattenReduce {α : Type} (ident : Option α) (op : α → α → α) (init : Option α) (n : Nat) (elem : Nat → α) : Option α :=
+  if n = 0 then emptyFold ident init else reducer op init n elem
+
 /-- element of `flatten(apply_slice(array, sl))` at flat position `k` -/
 def slicedFlatElem {α : Type} (a : Arr α) (sl : List (Nat × Nat)) (k : Nat) : α :=
   a.get (sliceIndex sl (ndindex (sliceShape sl) k))
 
-/-- `reduce_t::operator()(indices…)`: slice → flatten → reducer.
-    `reduce_t<axis = None>` ignores the indices and folds `flatten(array)`. -/
-def reduceElem {α : Type} (op : α → α → α) (init : Option α) (a : Arr α) (axis : AxisArg) (keep : Bool)
+/-- `reduce_t::operator()(indices…)`: slice → (empty? →) flatten → reducer.
+    `reduce_t<axis = None>` ignores the indices and folds `flatten(array)`.  `ident` = the identity of the functor, if it
+    declares one. -/
+def reduceElemId {α : Type} (ident : Option α) (op : α → α → α) (init : Option α) (a : Arr α) (axis : AxisArg) (keep : Bool)
     (d : Idx) : Option α :=
   match axis with
-  | none => reducer op init (prod a.shape) (fun k => a.get (ndindex a.shape k))
+  | none => flattenReduce ident op init (prod a.shape) (fun k => a.get (ndindex a.shape k))
   | some _ =>
     match reductionSlices d a.shape axis keep with
     | none => none
-    | some sl => reducer op init (prod (sliceShape sl)) (slicedFlatElem a sl)
+    | some sl => flattenReduce ident op init (prod (sliceShape sl)) (slicedFlatElem a sl)
 
 /-- the reduce view: shape (`none` = UB while computing it) and element function (`none` = UB) -/
+def reduceId {α : Type} (ident : Option α) (op : α → α → α) (init : Option α) (a : Arr α) (axis : AxisArg) (keep : Bool) :
+    Option (Arr (Option α)) :=
+  (removeDims a.shape axis keep).map (fun s => ⟨s, reduceElemId ident op init a axis keep⟩)
+
+/-- a functor without `identity()` (the order-revealing functor of the protocol, maximum, minimum, subtract, …) -/
+def reduceElem {α : Type} (op : α → α → α) (init : Option α) (a : Arr α) (axis : AxisArg) (keep : Bool) :
+    Idx → Option α := reduceElemId none op init a axis keep
+
 def reduce {α : Type} (op : α → α → α) (init : Option α) (a : Arr α) (axis : AxisArg) (keep : Bool) :
     Option (Arr (Option α)) :=
   (removeDims a.shape axis keep).map (fun s => ⟨s, reduceElem op init a axis keep⟩)
+
+theorem reduce_eq_reduceId {α : Type} (op : α → α → α) (init : Option α) (a : Arr α) (axis : AxisArg) (keep : Bool) :
+    reduce op init a axis keep = reduceId none op init a axis keep := rfl
 
 /-- `accumulate_t::operator()`: `m_axis = axis; if (m_axis < 0) m_axis += dim` (NumPy's meaning of a negative axis;
     an axis outside `[-dim, dim)` is left as it is and matches no position) -/
@@ -142,7 +168,7 @@ def accumulateSlices (axis : Int) (d : Idx) : Nat → Shape → Option (List (Na
 def accumulateElem {α : Type} (op : α → α → α) (a : Arr α) (axis : Int) (d : Idx) : Option α :=
   match accumulateSlices (accumulateAxis a.shape.length axis) d 0 a.shape with
   | none => none
-  | some sl => reducer op none (prod (sliceShape sl)) (slicedFlatElem a sl)
+  | some sl => flattenReduce none op none (prod (sliceShape sl)) (slicedFlatElem a sl)
 
 /-- the accumulate view: source shape, running fold per element -/
 def accumulate {α : Type} (op : α → α → α) (a : Arr α) (axis : Int) : Arr (Option α) :=
@@ -176,12 +202,12 @@ def maximum {α : Type} [LT α] [DecidableRel (α := α) (· < ·)] (t u : α) :
 /-- `view::minimum_t`: `t < u ? t : u` -/
 def minimum {α : Type} [LT α] [DecidableRel (α := α) (· < ·)] (t u : α) : α := if t < u then t else u
 
-/-- `view::sum(a, axis, dtype, initial, keepdims)` = `reduce(add_t{}, …)` -/
-def sum {α : Type} [Add α] (init : Option α) (a : Arr α) (axis : AxisArg) (keep : Bool) :=
-  reduce (· + ·) init a axis keep
-/-- `view::prod` = `reduce(multiply_t{}, …)` -/
-def prodReduce {α : Type} [Mul α] (init : Option α) (a : Arr α) (axis : AxisArg) (keep : Bool) :=
-  reduce (· * ·) init a axis keep
+/-- `view::sum(a, axis, dtype, initial, keepdims)` = `reduce(add_t{}, …)`; `add_t::identity()` = 0 -/
+def sum {α : Type} [Add α] [OfNat α 0] (init : Option α) (a : Arr α) (axis : AxisArg) (keep : Bool) :=
+  reduceId (some 0) (· + ·) init a axis keep
+/-- `view::prod` = `reduce(multiply_t{}, …)`; `multiply_t::identity()` = 1 -/
+def prodReduce {α : Type} [Mul α] [OfNat α 1] (init : Option α) (a : Arr α) (axis : AxisArg) (keep : Bool) :=
+  reduceId (some 1) (· * ·) init a axis keep
 /-- `view::amax` = `reduce_maximum` = `reduce(maximum_t{}, …)` -/
 def amax {α : Type} [LT α] [DecidableRel (α := α) (· < ·)] (init : Option α) (a : Arr α) (axis : AxisArg) (keep : Bool) :=
   reduce maximum init a axis keep
@@ -236,6 +262,19 @@ def ValidAxes (ndim : Nat) : AxisArg → Prop
 instance (ndim : Nat) (ax : AxisArg) : Decidable (ValidAxes ndim ax) := by
   unfold ValidAxes; cases ax <;> exact inferInstance
 
+/-- every reduced axis has a positive extent (the other extents are unconstrained: they may be 0) -/
+def PosAxes (s : Shape) (R : List Nat) : Prop := ∀ k ∈ R, ∀ e, s[k]? = some e → 0 < e
+
+instance (s : Shape) (R : List Nat) : Decidable (PosAxes s R) :=
+  decidable_of_iff (∀ k ∈ R, (s[k]?).all (0 < ·) = true) (by
+    unfold PosAxes
+    constructor
+    · intro h k hk e he; have := h k hk; rw [he] at this; simpa using this
+    · intro h k hk
+      cases he : s[k]? with
+      | none => rfl
+      | some e => simpa using h k hk e he)
+
 /-- NumPy result shape of a reduction over the axis set `R` -/
 def specShape (s : Shape) (R : List Nat) (keep : Bool) : Shape :=
   if keep then s.zipIdx.map (fun q => if q.2 ∈ R then 1 else q.1)
@@ -253,6 +292,13 @@ def foldFirst {α : Type} (op : α → α → α) : Option α → List α → Op
   | none, x :: xs => some (xs.foldl op x)
   | none, [] => none
 
+/-- NumPy `ufunc.reduce` over a list of elements: a non-empty list is folded from the initial value or from its first
+    element; the empty list gives the initial value, else the identity of the ufunc, else
+    "zero-size array to reduction operation which has no identity" (`none`) -/
+def foldNumpy {α : Type} (ident : Option α) (op : α → α → α) (init : Option α) : List α → Option α
+  | [] => (match init with | some i => some i | none => ident)
+  | x :: xs => foldFirst op init (x :: xs)
+
 /-- the source multi-indices feeding result index `j`, in increasing C order -/
 def addressed (s : Shape) (R : List Nat) (keep : Bool) (j : Idx) : List Idx :=
   (allIdx s).filter (fun i => proj R keep i == j)
@@ -261,6 +307,11 @@ def addressed (s : Shape) (R : List Nat) (keep : Bool) (j : Idx) : List Idx :=
 def specReduceElem {α : Type} (op : α → α → α) (init : Option α) (a : Arr α) (R : List Nat) (keep : Bool)
     (j : Idx) : Option α :=
   foldFirst op init ((addressed a.shape R keep j).map a.get)
+
+/-- … of a ufunc with identity `ident` (`none`: it has none), for every shape, extents 0 included -/
+def specReduceElemId {α : Type} (ident : Option α) (op : α → α → α) (init : Option α) (a : Arr α) (R : List Nat) (keep : Bool)
+    (j : Idx) : Option α :=
+  foldNumpy ident op init ((addressed a.shape R keep j).map a.get)
 
 /-- NumPy `var(a, axis, ddof, keepdims)[j]`: with `G` the addressed elements, `μ = (Σ G) / |G|`,
     `(Σ_{x ∈ G} |x - μ|²) / (|G| - ddof)`; abstract element operations -/
